@@ -9,6 +9,9 @@ BODY_TARGETS = ['yp_generator.YPPrologCompiler.compile_body', 'yp_generator.YPPr
 
 def body_deductive(rep):
     fw.deductive(rep, BODY_TARGETS, ['generator_body'], ['control.smt2'], theory=CompilerTheory)
+    # what the abstract goal loop (SForeach goal code) concretely is: compile_predicate against the emitted query call
+    from ..pyvc.theory_clause import ClauseTheory
+    fw.deductive(rep, ['yp_generator.YPPrologCompiler.compile_predicate'], ['generator_goal'], ['control.smt2'], theory=ClauseTheory)
     fw.add_smt(rep, lemmas.lean_lemmas(), 'lean.control-algebra', 'lemma')
     rep.lemmas.append('control algebra: 17 lemmas (seq/bind units, absorption, distributivity, associativity, bind_ite, neg_ite, '
                       'ite_block, pure_of_plain, noexit_of_lbl, lblLe_mono, wfb_of_plain, semc_append) proved in Lean 4 in the '
